@@ -33,19 +33,23 @@ TARGETS = {"for", "with", "except", "import", "importfrom", "walrus"}
 GROUPS = {
     # name: constants, per tier (Names, MaxScopes, MaxEv)
     "core": dict(Kinds={"function", "class"}, Ops=CORE, ScopeNames=set(),
-                 quick=({"a"}, 4, 3), thorough=({"a"}, 4, 5)),
+                 quick=({"a"}, 4, 3), quick_rename=({"a"}, 3, 4), thorough=({"a"}, 4, 5)),
     "core2": dict(Kinds={"function", "class"}, Ops=CORE, ScopeNames=set(),
                   quick=({"a", "b"}, 2, 4), thorough=({"a", "b"}, 3, 4)),
     "defnames": dict(Kinds={"function", "class"}, Ops={"bind", "use", "global", "nonlocal", "param"},
                      ScopeNames={"a"}, quick=({"a"}, 3, 3), thorough=({"a"}, 4, 3)),
     "targets": dict(Kinds={"function", "class"}, Ops={"use", "global", "nonlocal"} | TARGETS,
-                    ScopeNames=set(), quick=({"a"}, 3, 3), thorough=({"a"}, 3, 4)),
+                    ScopeNames=set(), quick=({"a"}, 3, 3), quick_rename=({"a"}, 2, 4), thorough=({"a"}, 3, 4)),
     "comp": dict(Kinds={"function", "class", "comp"}, Ops={"bind", "use", "for", "iteruse", "global", "param"},
                  ScopeNames=set(), quick=({"a"}, 3, 3), thorough=({"a"}, 4, 4)),
     "calls": dict(Kinds={"function", "class"}, Ops={"bind", "use", "param", "kwcall", "defuse"},
                   ScopeNames={"a"}, quick=({"a", "b"}, 3, 2), thorough=({"a", "b"}, 3, 4)),
     "decoys": dict(Kinds={"function"}, Ops={"bind", "use", "param", "fuse", "cmtdecoy", "strdecoy"},
                    ScopeNames=set(), quick=({"a"}, 2, 4), thorough=({"a"}, 3, 4)),
+    # multi-module part: a second module, the import forms, rename of its names / of the module
+    "modules": dict(Kinds={"function"}, Ops={"bind", "use", "libdef", "libuse", "fromlib", "fromlibas", "modattr", "asattr"},
+                    ScopeNames=set(), Libs={"module", "package", "relative", "external"},
+                    quick=({"a"}, 2, 4), thorough=({"a"}, 3, 4)),
     # constructs with known gaps in rope
     "params": dict(Kinds={"function", "class"}, Ops={"use", "bind", "posonly", "kwonly", "vararg", "kwarg", "param"},
                    ScopeNames=set(), quick=({"a"}, 3, 3), thorough=({"a", "b"}, 3, 3)),
@@ -65,9 +69,12 @@ MODEL_PROPERTIES = ["ResolveStable", "AlphaEq"]
 def constants(group, tier, rename=False, fresh_only=True):
     g = GROUPS[group]
     names, max_scopes, max_ev = g[tier]
+    if rename and tier == "quick" and "quick_rename" in g:
+        names, max_scopes, max_ev = g["quick_rename"]     # Rename multiplies the states
     return {
         "Names": set(names), "Fresh": {"zz"}, "Kinds": set(g["Kinds"]), "Ops": set(g["Ops"]),
         "ScopeNames": set(g["ScopeNames"]) & set(names), "MaxScopes": max_scopes, "MaxEv": max_ev,
+        "Libs": set(g.get("Libs", {"none"})), "ModFresh": {"zm"},
         "DoRename": rename, "FreshOnly": fresh_only,
     }
 
@@ -102,8 +109,16 @@ def run_group(group, tier, export="Export", rename=False, check_model=True, on_i
         else:
             items.append(v)
     try:
-        res = tlc.run("MC_PyScope", cfg, on_tagged=on, collect_tags=False, coverage=coverage, timeout=timeout,
-                      workers=workers)
+        for attempt in range(3):
+            del items[:]
+            res = tlc.run("MC_PyScope", cfg, on_tagged=on, collect_tags=False, coverage=coverage, timeout=timeout,
+                          workers=workers)
+            # TLC's scratch directory on /dev/shm can disappear under it when other jobs clean
+            # up there ("when writing the disk ... No such file"): an environment fault, run again
+            if res.error and ("writing the disk" in (res.error + res.tail) or "No such file" in (res.error + res.tail)) \
+                    and on_item is None:
+                continue
+            break
     finally:
         if os.path.exists(cfg):
             os.unlink(cfg)
@@ -135,6 +150,8 @@ class Program:
         self.gdecl = {(s, n) for s, n in rec["gdecl"]}
         self.ndecl = {(s, n) for s, n in rec["ndecl"]}
         self.names = sorted({e["n"] for e in self.events})
+        self.lib = rec.get("lib", "none")
+        self.libname = rec.get("libname", "lb")
         self.children = {s: [] for s in range(1, self.n + 1)}
         for i in range(2, self.n + 1):
             self.children[self.scopes[i]["parent"]].append(i)
@@ -155,8 +172,8 @@ class Program:
         """binding partition as exported: {(b, n): [events]} for determined tokens"""
         out = {}
         for e in self.events:
-            if e["b"] != 0 and e["op"] not in DECOYS:
-                out.setdefault((e["b"], e["n"]), []).append(e)
+            if e["det"]:
+                out.setdefault(("lib" if e.get("lc") else e["b"], e["n"]), []).append(e)
         return out
 
     def scope_label(self, s):
@@ -184,6 +201,13 @@ class Rendered:
         self.last = {}       # scope -> last line
         self.brackets = {}   # comp scope -> ((line, col) of '[', (line, col) of ']')
         self.call_line = {}  # function / lambda scope -> line of its call
+        self.main = "mod.py"         # project-relative path of the first module
+        self.lib_path = None         # path of the second module
+        self.lib_lines = []
+        self.lib_tok = {}            # lib event key -> (line, col) in the second module
+        self.mod_tokens = []         # (path, line, col) of every token naming the second module
+        self.extra_files = {}        # __init__.py files
+        self.external = False        # the second module lies outside the project
         self.use_line = {}   # line printed by _u -> event key
 
     @property
@@ -199,6 +223,41 @@ class Rendered:
         for l in self.lines:
             starts.append(starts[-1] + len(l) + 1)
         return {k: starts[line - 1] + col for k, (line, col) in self.tok.items()}
+
+    # -- multi-module view: every token as (path, offset)
+    @property
+    def files(self):
+        """files of the project"""
+        out = {self.main: self.src}
+        if self.lib_path and not self.external:
+            out[self.lib_path] = self.lib_src
+        out.update(self.extra_files)
+        return out
+
+    @property
+    def lib_src(self):
+        return "\n".join(self.lib_lines) + "\n"
+
+    @property
+    def outside(self):
+        """files on the path but outside the project"""
+        return {self.lib_path: self.lib_src} if self.external else {}
+
+    @staticmethod
+    def _off(lines, line, col):
+        return sum(len(l) + 1 for l in lines[:line - 1]) + col
+
+    def places(self):
+        """event key -> (path, offset) for both modules"""
+        out = {k: (self.main, o) for k, o in self.offsets().items()}
+        for k, (line, col) in self.lib_tok.items():
+            out[k] = ("<outside>/" + self.lib_path if self.external else self.lib_path,
+                      self._off(self.lib_lines, line, col))
+        return out
+
+    def module_places(self):
+        return sorted((p, self._off(self.lines if p == self.main else self.lib_lines, line, col))
+                      for p, line, col in self.mod_tokens)
 
 
 class _Renderer:
@@ -265,6 +324,7 @@ class _Renderer:
             self.emit(indent, ["import os as ", self.ident(e)])
         for e in self.evs(s, "importfrom"):
             self.emit(indent, ["from os import sep as ", self.ident(e)])
+        self.lib_imports(s, indent)
         for e in self.evs(s, "for"):
             self.emit(indent, ["for ", self.ident(e), " in [", ("line",), "]:"])
             self.emit(indent + 4, ["pass"])
@@ -273,12 +333,12 @@ class _Renderer:
             self.emit(indent + 4, ["pass"])
         for e in self.evs(s, "walrus"):
             self.emit(indent, ["(", self.ident(e), " := ", ("line",), ")"])
-        for e in self.evs(s, "aug"):
-            self.wrapped(indent, [self.ident(e), " += 0"])
         for e in self.evs(s, "matchcap"):
             self.emit(indent, ["match ", ("line",), ":"])
             self.emit(indent + 4, ["case ", self.ident(e), ":"])
             self.emit(indent + 8, ["pass"])
+        for e in self.evs(s, "aug"):
+            self.wrapped(indent, [self.ident(e), " += 0"])
         for c in p.children[s]:
             k = p.kind(c)
             if k == "function":
@@ -294,6 +354,10 @@ class _Renderer:
             self.use(indent, e, [self.ident(e)])
         for e in self.evs(s, "fuse"):
             self.use(indent, e, ["f'{", self.ident(e), "}'"])
+        for e in self.evs(s, "modattr"):
+            self.use(indent, e, self.dotted() + [".", self.ident(e)])
+        for e in self.evs(s, "asattr"):
+            self.use(indent, e, ["_m%d." % s, self.ident(e)])
         for e in self.evs(s, "except"):
             self.emit(indent, ["try:"])
             self.emit(indent + 4, ["raise _E(", ("line",), ")"])
@@ -303,6 +367,63 @@ class _Renderer:
             self.wrapped(indent, ["del ", self.ident(e)])
         if len(self.r.lines) == n0 or all(l.lstrip().startswith("#") for l in self.r.lines[n0:]):
             self.emit(indent, ["pass"])
+
+    # -- multi-module part
+    def modtok(self):
+        return ("mark", lambda l, c: self.r.mod_tokens.append((self.r.main, l, c)))
+
+    def dotted(self):
+        """the second module as written in an expression of the first"""
+        if self.p.lib == "package":
+            return ["pk.", self.modtok(), self.p.libname]
+        return [self.modtok(), self.p.libname]
+
+    def lib_imports(self, s, indent):
+        p = self.p
+        lib = p.libname
+        frm = {"module": ["from ", self.modtok(), lib], "package": ["from pk.", self.modtok(), lib],
+               "relative": ["from .", self.modtok(), lib], "external": ["from ", self.modtok(), lib]}.get(p.lib)
+        for e in self.evs(s, "fromlib"):
+            self.emit(indent, frm + [" import ", self.ident(e)])
+        for e in self.evs(s, "fromlibas"):
+            self.emit(indent, frm + [" import ", self.ident(e), " as _q%d" % s])
+        if self.evs(s, "modattr"):
+            if p.lib == "relative":
+                self.emit(indent, ["from . import ", self.modtok(), lib])
+            else:
+                self.emit(indent, ["import "] + self.dotted())
+        if self.evs(s, "asattr"):
+            if p.lib == "relative":
+                self.emit(indent, ["from . import ", self.modtok(), lib, " as _m%d" % s])
+            else:
+                self.emit(indent, ["import "] + self.dotted() + [" as _m%d" % s])
+
+    def lib_module(self):
+        """top level of the second module"""
+        p, r = self.p, self.r
+        if p.lib == "none":
+            return
+        r.lib_path = {"module": "%s.py", "package": "pk/%s.py", "relative": "pk/%s.py",
+                      "external": "%s.py"}[p.lib] % p.libname
+        r.external = p.lib == "external"
+        if p.lib in ("package", "relative"):
+            r.extra_files["pk/__init__.py"] = ""
+        if p.lib == "relative":
+            r.main = "pk/mod.py"
+            r.mod_tokens = [("pk/mod.py", l, c) for (_, l, c) in r.mod_tokens]
+        lines = r.lib_lines
+        for e in self.evs(0, "libdef"):
+            ln = len(lines) + 1
+            r.lib_tok[ev_key(e)] = (ln, 0)
+            lines.append("%s = %d" % (e["n"], 1000 + ln))
+        for e in self.evs(0, "libuse"):
+            ln = len(lines) + 1
+            text = "_u(%d, " % (1000 + ln)
+            r.lib_tok[ev_key(e)] = (ln, len(text))
+            lines.append(text + e["n"] + ")")
+            r.use_line[1000 + ln] = ev_key(e)
+        if not lines:
+            lines.append("pass")
 
     def use(self, indent, e, expr):
         self.emit(indent, ["try:"])
@@ -420,6 +541,7 @@ class _Renderer:
         self.r.head[1] = 1
         self.body(1, 0)
         self.r.last[1] = len(self.r.lines)
+        self.lib_module()
         return self.r
 
 
@@ -490,6 +612,64 @@ def execute(src):
     if res["syntax"]:
         return None, "SyntaxError: " + res.get("msg", "")
     return out, res["exc"]
+
+
+def execute_project(files, main, outside=None):
+    """Run a rendered multi-module program in this process: the files are written to a
+    scratch directory that is first on sys.path, helpers live in builtins for the run,
+    every module imported from there is forgotten afterwards.
+    Returns (printed lines, exception name)."""
+    import builtins
+    import importlib
+    import sys
+    import contextlib
+    root = common.scratch("pyscope_run_")
+    out = []
+    helpers = _make_helpers(out)
+    before = set(sys.modules)
+    exc = None
+    try:
+        for base, fs in ((root, files), (os.path.join(root, "_outside"), outside or {})):
+            for rel, text in fs.items():
+                full = os.path.join(base, rel)
+                os.makedirs(os.path.dirname(full), exist_ok=True)
+                with open(full, "w") as f:
+                    f.write(text)
+        for k, v in helpers.items():
+            setattr(builtins, k, v)
+        if outside:
+            sys.path.insert(0, os.path.join(root, "_outside"))
+        sys.path.insert(0, root)
+        importlib.invalidate_caches()
+        modname = main[:-3].replace("/", ".")
+        try:
+            with contextlib.redirect_stdout(io.StringIO()):
+                importlib.import_module(modname)
+        except SyntaxError as e:
+            return None, "SyntaxError: %s" % e
+        except BaseException as e:  # the program's own exception is an observable
+            exc = type(e).__name__
+    finally:
+        for pth in (root, os.path.join(root, "_outside")):
+            if pth in sys.path:
+                sys.path.remove(pth)
+        sys.path_importer_cache.pop(root, None)
+        for k in list(sys.path_importer_cache):
+            if k.startswith(root):
+                sys.path_importer_cache.pop(k, None)
+        for k in set(sys.modules) - before:
+            del sys.modules[k]
+        for k in helpers:
+            if hasattr(builtins, k):
+                delattr(builtins, k)
+        common.rmtree(root)
+    return out, exc
+
+
+def run_rendered(r):
+    if r.lib_path is None:
+        return execute(r.src)
+    return execute_project(r.files, r.main, r.outside)
 
 
 # --------------------------------------------------------------------------
@@ -631,8 +811,22 @@ def cpython_check(prog, r, run=True):
                     raise SpecMismatch("Resolve(%d,%s)=%d, symtable says local" % (s, n, res))
         # every token whose resolution starts in s must have a symbol there
     info = {"spans": spans}
+    if r.lib_path is not None:
+        lib_src = r.lib_src
+        try:
+            ast.parse(lib_src)
+        except SyntaxError as e:
+            raise SpecMismatch("second module does not compile: %s" % e)
+        lib_names = {t.start: t.string for t in tokenize.generate_tokens(io.StringIO(lib_src).readline)
+                     if t.type == tokenize.NAME}
+        for key, pos in r.lib_tok.items():
+            if lib_names.get(pos) != key[2]:
+                raise SpecMismatch("token of %s not at %s in the second module" % (key, pos))
+        for (path, line, col) in r.mod_tokens:
+            if path != r.main or names_at.get((line, col)) != prog.libname:
+                raise SpecMismatch("module token not at %s" % ((path, line, col),))
     if run:
-        out, exc = execute(src)
+        out, exc = run_rendered(r)
         if out is None:
             raise SpecMismatch(exc)
         info["out"] = out
@@ -647,6 +841,8 @@ def _provenance(prog, r, out):
     by_key = {ev_key(e): e for e in prog.events}
     value_lines = {}
     for e in prog.events:
+        if e["op"] == "libdef":
+            value_lines.setdefault(("lib", e["n"]), set()).add(1000 + r.lib_tok[ev_key(e)][0])
         if e["op"] in VALUE_BINDERS and e["b"] != 0:
             ln = r.tok[ev_key(e)][0]
             if e["op"] == "matchcap":
@@ -660,6 +856,10 @@ def _provenance(prog, r, out):
         if key is None:
             continue
         e = by_key[key]
+        if e.get("lc"):
+            if val.isdigit() and int(val) not in value_lines.get(("lib", e["n"]), ()):
+                raise SpecMismatch("use %s of the second module's %s printed %s" % (key, e["n"], val))
+            continue
         if e["b"] == 0:
             if val != "NameError":
                 raise SpecMismatch("use %s is unbound for the spec but evaluates to %s" % (key, val))
